@@ -324,3 +324,17 @@ Fixpoint infer_value_d (d : json) : vd shape :=
      end).
 
 Definition value_depth (d : json) : nat := snd (infer_value_d d).
+
+(* ---------- nesting depth of a shape ---------- *)
+(* merger and is_subset are structural recursions on their first argument (Model/Merger.v, Model/Subset.v:
+   `{struct a}`), so the nesting of their calls is bounded by this depth; Proofs/ShapeDepth.v bounds it by the
+   nesting depth of the document for every shape the text path infers *)
+Fixpoint sdepth (s : shape) : nat :=
+  match s with
+  | SArray x _ => S (sdepth x)
+  | SObject c _ => S (fold_right (fun kv n => Nat.max (sdepth (snd kv)) n) 0 c)
+  | SOneOf vs _ => S (fold_right (fun v n => Nat.max (sdepth v) n) 0 vs)
+  | STuple es _ => S (fold_right (fun v n => Nat.max (sdepth v) n) 0 es)
+  | _ => 0
+  end.
+
